@@ -20,7 +20,7 @@ import (
 
 // C14 — multipart bookkeeping listings are exact and page completely.
 
-var c14Keys = []string{"a", "a/b", "a/c", "d", "a-1", "a.csv", "a b", "d.x", " lead", "\tq"}
+var c14Keys = []string{"a", "a/b", "a/c", "d", "a-1", "a.csv", "a b", "d.x", " lead", "\tq", "dé1é2", "dé1é3", "déz"}
 
 type c14Case struct {
 	Backend backends.Kind `json:"backend"`
@@ -359,7 +359,7 @@ func TestC14(t *testing.T) {
 	runProp(t, propDef{
 		ID:    "C14",
 		Level: "exploration",
-		Rule: "cases = (backend, multipart history over keys {a, a/b, a/c, d} with up to 3 uploads per key and part numbers with gaps, prefix, delimiter); for each history: ListMultipartUploads is compared with the model's pending uploads " +
+		Rule: "cases = (backend, multipart history over keys {a, a/b, a/c, d, ...; some with bytes below '/', leading white space, or the two-byte character é} with up to 3 uploads per key and part numbers with gaps, prefix, delimiter absent, '/' or 'é'); for each history: ListMultipartUploads is compared with the model's pending uploads " +
 			"(order by key then initiation, prefix/delimiter grouping), walked with every max-uploads 1..n+1 following NextKeyMarker/NextUploadIdMarker; ListParts of every pending upload is compared with the held parts and walked with every max-parts 1..n+1, " +
 			"plus arbitrary numeric part-number markers (0, existing, in a gap, highest, beyond, 10000, 2^31); non-trivial = a walk with >= 2 pages over >= 2 keys, or parts with a gap, or a second ListParts page; distinct by the full case",
 		Replay: c14Replay,
@@ -433,7 +433,9 @@ func c14Run(t *testing.T, c *evid.Collector) {
 		c.Case(evid.FP(mustJSON(cs)), nt, func() interface{} { return cs }, ls...)
 		return report(c, "mpu-listing", ds, cs)
 	}
-	pds := [][2]string{{"", ""}, {"", "/"}, {"a", ""}, {"a", "/"}, {"a/", "/"}, {"d", "/"}, {"a/b", ""}, {"x", ""}}
+	pds := [][2]string{{"", ""}, {"", "/"}, {"a", ""}, {"a", "/"}, {"a/", "/"}, {"d", "/"}, {"a/b", ""}, {"x", ""},
+		// a delimiter is a character, not a byte: uploads are grouped by one of several bytes the way objects are
+		{"", "é"}, {"d", "é"}, {"dé1", "é"}}
 	if evid.Shard() == 0 {
 		b := func(s string) []byte { return []byte(s) }
 		ini := func(k string) prog.Op { return prog.Op{K: "init", B: "bk0", Key: k} }
@@ -448,6 +450,8 @@ func c14Run(t *testing.T, c *evid.Collector) {
 			{ini(" lead"), ini(" lead"), ini("a"), ini("\tq"), ini("\tq"), ini(" lead")},
 			// keys in a prefix relation whose longer one goes on with a byte below '/': ordered by key, not by key + "/"
 			{ini("a"), ini("a-1"), ini("a.csv"), ini("a"), ini("ab"), ini("a b"), ini("a/b"), ini("a-1")},
+			// a delimiter of more than one byte
+			{ini("dé1é2"), ini("d"), ini("dé1é3"), ini("déz"), ini("dé1é2"), ini("a/b"), ini("d.x")},
 			// a refused request to delete the (non-empty) bucket leaves the uploads in progress and their parts alone
 			{{K: "put", B: "bk0", Key: "zz-plain-object", Body: b("x")}, ini("a/b"), ini("a/b"), ini("d"), {K: "part", Ref: 0, PartN: 1, Body: b("one")}, {K: "part", Ref: 0, PartN: 3, Body: b("three")}, {K: "rmbucket", B: "bk0"}, ini("a/c")},
 			// a completion the backend refuses (file system backends: the key collides with the live key "a"):
